@@ -80,6 +80,9 @@ class TZP:
         custom timezone is returned from timezone().
         """
         _unclean_id = timezone_component['TZID']
+        if not isinstance(_unclean_id, str):
+            # several TZID lines: there is no single id to cache this under
+            return
         _id = self.clean_timezone_id(_unclean_id)
         if not self.__provider.knows_timezone_id(_id) \
             and not self.__provider.knows_timezone_id(_unclean_id) \
